@@ -77,6 +77,18 @@ def run_unit(name, rlimit=None, seed=None, timeout=900):
     a = runner.analyse(res, w)
     r['res'] = res
     r['analysis'] = a
+    # vacuity guard: the number of verified functions/lemmas and of tagged clauses must not fall below the committed baseline
+    try:
+        base = json.load(open(os.path.join(VERIF, 'contracts', 'baseline.json'))).get(name)
+    except (OSError, ValueError):
+        base = None
+    if base and a['status'] in ('ok', 'failed'):
+        tagged_now = sum(1 for l in w.lines if l.lstrip().startswith('//@ob'))
+        if a['verified'] + a['errors'] < base['verified'] or tagged_now < base['tagged_clauses']:
+            r['status'] = 'undecided'
+            r['reason'] = 'fewer obligations than the committed baseline (%d functions, %d tagged clauses; baseline %d, %d)' % (
+                a['verified'] + a['errors'], tagged_now, base['verified'], base['tagged_clauses'])
+            return r
     if a['status'] == 'ok':
         r['status'] = 'ok'
     elif a['status'] == 'failed':
